@@ -9,9 +9,9 @@ import ast
 import inspect
 import textwrap
 
-from .vals import (Int, Bool, Str, Bytes, NoneT, TRef, TOpt, TSet, TMap, TSeq, TTuple, TRec, TOpaque)
+from .vals import (Int, Bool, Str, Bytes, NoneT, TRef, TOpt, TSet, TMap, TSeq, TTuple, TRec, TOpaque, TLSet)
 
-Ref, Opt, Set, Map, Seq, Tuple, Rec, Opaque = TRef, TOpt, TSet, TMap, TSeq, TTuple, TRec, TOpaque
+Ref, Opt, Set, Map, Seq, Tuple, Rec, Opaque, ListOfSet = TRef, TOpt, TSet, TMap, TSeq, TTuple, TRec, TOpaque, TLSet
 
 
 class ClassDecl:
